@@ -1059,6 +1059,415 @@ fn run_line(base: &str, secs: Secs, endian: RunTimeEndian, asz: u8, by_sequence:
 }
 
 // ===========================================================================
+// "gen": DWARF produced by gimli's own writer from seeded random content.
+// The writer is only a generator here: whatever it writes is the INPUT of the
+// conversion; a seed the writer refuses is skipped (event GenFailed).
+// ===========================================================================
+fn gen_expr(r: &mut Rng, enc: Encoding, bases: &[write::UnitEntryId], locals: &[write::UnitEntryId], globals: &[(write::UnitId, write::UnitEntryId)], depth: u32) -> write::Expression {
+    let mut x = write::Expression::new();
+    let n = r.range(1, 7) as usize;
+    let mut branches: Vec<(usize, usize)> = Vec::new();
+    for _ in 0..n {
+        match r.below(30) {
+            0 => x.op(*r.pick(&[c::DW_OP_plus, c::DW_OP_minus, c::DW_OP_dup, c::DW_OP_drop, c::DW_OP_and, c::DW_OP_deref, c::DW_OP_call_frame_cfa, c::DW_OP_stack_value, c::DW_OP_nop, c::DW_OP_lit0, c::DW_OP_lit31, c::DW_OP_push_object_address])),
+            1 => x.op_addr(Address::Constant(r.boundary64() & if enc.address_size == 4 { 0xffff_ffff } else { u64::MAX })),
+            2 | 3 => x.op_constu(r.boundary64()),
+            4 | 5 => x.op_consts(r.boundary64() as i64),
+            6 => x.op_fbreg(r.boundary64() as i64),
+            7 | 8 => x.op_breg(Register(*r.pick(&[0u16, 6, 31, 32, 127, 300])), r.boundary64() as i64),
+            9 => x.op_reg(Register(*r.pick(&[0u16, 31, 32, 1000]))),
+            10 => x.op_pick(r.below(4) as u8),
+            11 => x.op_deref_size(*r.pick(&[1u8, 2, 4, 8])),
+            12 => x.op_plus_uconst(r.boundary64()),
+            13 | 14 => {
+                let i = x.op_skip();
+                branches.push((i, r.below(n as u64 + 1) as usize));
+            }
+            15 | 16 => {
+                let i = x.op_bra();
+                branches.push((i, r.below(n as u64 + 1) as usize));
+            }
+            17 if !locals.is_empty() => x.op_call(*r.pick(locals)),
+            18 if !globals.is_empty() => {
+                let g = *r.pick(globals);
+                x.op_call_ref(write::DebugInfoRef::Entry(g.0, g.1))
+            }
+            19 if !bases.is_empty() => x.op_const_type(*r.pick(bases), (0..*r.pick(&[1u64, 4, 8])).map(|_| r.below(256) as u8).collect::<Vec<u8>>().into_boxed_slice()),
+            20 if !bases.is_empty() => x.op_regval_type(Register(r.below(40) as u16), *r.pick(bases)),
+            21 if !bases.is_empty() => x.op_deref_type(*r.pick(&[1u8, 4, 8]), *r.pick(bases)),
+            22 => {
+                let b = if bases.is_empty() || r.chance(1, 3) { None } else { Some(*r.pick(bases)) };
+                if r.chance(1, 2) {
+                    x.op_convert(b)
+                } else {
+                    x.op_reinterpret(b)
+                }
+            }
+            23 if depth == 0 => {
+                let sub = gen_expr(r, enc, bases, &[], &[], 1);
+                x.op_entry_value(sub)
+            }
+            24 => x.op_implicit_value((0..r.below(5)).map(|_| r.below(256) as u8).collect::<Vec<u8>>().into_boxed_slice()),
+            25 if !globals.is_empty() => {
+                let g = *r.pick(globals);
+                x.op_implicit_pointer(write::DebugInfoRef::Entry(g.0, g.1), r.boundary64() as i64)
+            }
+            26 => x.op_piece(r.below(300)),
+            27 => x.op_bit_piece(r.below(300), r.below(70)),
+            28 if !locals.is_empty() => x.op_gnu_parameter_ref(*r.pick(locals)),
+            29 if !globals.is_empty() => {
+                let g = *r.pick(globals);
+                x.op_variable_value(write::DebugInfoRef::Entry(g.0, g.1))
+            }
+            _ => x.op_constu(r.below(40)),
+        }
+    }
+    let len = n; // number of operations pushed is n (each arm pushes exactly one)
+    for (i, t) in branches {
+        let t = if t == i { (t + 1) % (len + 1) } else { t };
+        x.set_target(i, t);
+    }
+    x
+}
+
+fn gen_dwarf(seed: u64, endian: RunTimeEndian) -> Result<Secs, String> {
+    let mut r = Rng::new(seed);
+    let mut dwarf = write::Dwarf::new();
+    let nunits = r.range(1, 3) as usize;
+    let mut unit_ids = Vec::new();
+    let mut encs = Vec::new();
+    for _ in 0..nunits {
+        let enc = Encoding {
+            version: r.range(2, 5) as u16,
+            format: if r.chance(1, 4) { Format::Dwarf64 } else { Format::Dwarf32 },
+            address_size: *r.pick(&[4u8, 8]),
+        };
+        let with_lines = r.chance(3, 4);
+        let lp = if with_lines {
+            let lenc = gimli::LineEncoding {
+                minimum_instruction_length: *r.pick(&[1u8, 1, 2, 4]),
+                maximum_operations_per_instruction: if enc.version >= 4 && r.chance(1, 4) { *r.pick(&[2u8, 4]) } else { 1 },
+                default_is_stmt: r.chance(1, 2),
+                line_base: 0,
+                line_range: 0,
+            };
+            let (lb, lr) = *r.pick(&[(-5i8, 14u8), (-3, 12), (-1, 4), (0, 1), (-128, 255), (-3, 4)]);
+            let lenc = gimli::LineEncoding { line_base: lb, line_range: lr, ..lenc };
+            let wd = write::LineString::new(&b"/work/dir"[..], enc, &mut dwarf.line_strings);
+            let sf = write::LineString::new(&b"main.c"[..], enc, &mut dwarf.line_strings);
+            let mut p = write::LineProgram::new(enc, lenc, wd, None, sf, None);
+            if enc.version >= 5 && r.chance(1, 2) {
+                p.file_has_md5 = true;
+            }
+            if r.chance(1, 2) {
+                p.file_has_timestamp = true;
+                p.file_has_size = true;
+            }
+            let mut dirs = vec![p.default_directory()];
+            for k in 0..r.below(3) {
+                let name = format!("inc{}", k);
+                let ls = if r.chance(1, 2) { write::LineString::String(name.into_bytes()) } else { write::LineString::new(name.as_bytes(), enc, &mut dwarf.line_strings) };
+                dirs.push(p.add_directory(ls));
+            }
+            let mut files = Vec::new();
+            for k in 0..r.range(1, 4) {
+                let name = format!("f{}.h", k % 3);
+                let info = if r.chance(1, 2) {
+                    Some(write::FileInfo { timestamp: r.below(1000), size: r.below(100_000), md5: [k as u8 + 1; 16], source: None })
+                } else {
+                    None
+                };
+                files.push(p.add_file(write::LineString::String(name.into_bytes()), *r.pick(&dirs), info));
+            }
+            let mil = lenc.minimum_instruction_length as u64;
+            let mut base = 0x1000u64;
+            for _ in 0..r.range(1, 4) {
+                base += r.below(0x1000) * mil;
+                if r.chance(5, 6) {
+                    p.begin_sequence(Some(Address::Constant(base)));
+                } else {
+                    p.begin_sequence(None);
+                }
+                let mut off = 0u64;
+                let mut line = 1u64;
+                let mut opi = 0u64;
+                for _ in 0..r.range(0, 12) {
+                    let row = p.row();
+                    let adv = mil * match r.below(6) { 0 => 0, 1 => 1, 2 => r.below(20), 3 => r.below(300), 4 => r.below(70000), _ => 2 };
+                    off += adv;
+                    row.address_offset = off;
+                    if lenc.maximum_operations_per_instruction > 1 {
+                        let m = lenc.maximum_operations_per_instruction as u64;
+                        opi = if adv == 0 { opi + r.below(m - opi) } else { r.below(m) };
+                        row.op_index = opi;
+                    }
+                    line = match r.below(5) { 0 => line, 1 => line + 1, 2 => line + r.below(20), 3 => line.saturating_sub(r.below(10)), _ => r.below(100000) };
+                    row.line = line;
+                    row.column = if r.chance(1, 2) { r.below(200) } else { 0 };
+                    row.file = *r.pick(&files);
+                    row.is_statement = r.chance(3, 4);
+                    row.basic_block = r.chance(1, 8);
+                    row.prologue_end = r.chance(1, 8);
+                    row.epilogue_begin = r.chance(1, 8);
+                    row.isa = if r.chance(1, 8) { r.below(5) } else { 0 };
+                    row.discriminator = if enc.version >= 4 && r.chance(1, 5) { r.below(300) } else { 0 };
+                    p.generate_row();
+                }
+                off += mil * r.range(1, 40);
+                p.end_sequence(off);
+                base += off;
+            }
+            p
+        } else {
+            write::LineProgram::none()
+        };
+        let id = dwarf.units.add(write::Unit::new(enc, lp));
+        unit_ids.push((id, with_lines));
+        encs.push(enc);
+    }
+    // entries: first create all entries of all units (so that references can go anywhere)
+    let tags = [c::DW_TAG_subprogram, c::DW_TAG_variable, c::DW_TAG_formal_parameter, c::DW_TAG_lexical_block, c::DW_TAG_structure_type,
+                c::DW_TAG_member, c::DW_TAG_pointer_type, c::DW_TAG_typedef, c::DW_TAG_namespace, c::DW_TAG_inlined_subroutine, c::DW_TAG_base_type];
+    let mut all: Vec<Vec<write::UnitEntryId>> = Vec::new();
+    let mut bases_of: Vec<Vec<write::UnitEntryId>> = Vec::new();
+    for (ui, (uid, _)) in unit_ids.iter().enumerate() {
+        let unit = dwarf.units.get_mut(*uid);
+        let root = unit.root();
+        let mut ids = vec![root];
+        let mut bases = Vec::new();
+        let n = r.range(3, 30);
+        for k in 0..n {
+            let parent = if r.chance(1, 3) { root } else { *r.pick(&ids) };
+            let tag = if k % 7 == 3 { c::DW_TAG_base_type } else { *r.pick(&tags) };
+            let id = unit.add(parent, tag);
+            if tag == c::DW_TAG_base_type && parent == root {
+                bases.push(id);
+            }
+            ids.push(id);
+        }
+        let _ = ui;
+        all.push(ids);
+        bases_of.push(bases);
+    }
+    let globals: Vec<(write::UnitId, write::UnitEntryId)> = unit_ids
+        .iter()
+        .zip(all.iter())
+        .flat_map(|((uid, _), ids)| ids.iter().skip(1).map(move |e| (*uid, *e)))
+        .collect();
+    for (ui, (uid, with_lines)) in unit_ids.iter().enumerate() {
+        let enc = encs[ui];
+        let amask = if enc.address_size == 4 { 0xffff_ffffu64 } else { u64::MAX };
+        let locals: Vec<write::UnitEntryId> = all[ui].iter().skip(1).cloned().collect();
+        let bases = bases_of[ui].clone();
+        let low_pc = if r.chance(2, 3) { 0x1000 + r.below(0x1000) } else { 0 };
+        {
+            let name = dwarf.strings.add(format!("unit{}.c", ui).into_bytes());
+            let unit = dwarf.units.get_mut(*uid);
+            let root = unit.root();
+            let e = unit.get_mut(root);
+            e.set(c::DW_AT_name, write::AttributeValue::StringRef(name));
+            e.set(c::DW_AT_comp_dir, write::AttributeValue::String(b"/work/dir".to_vec()));
+            e.set(c::DW_AT_language, write::AttributeValue::Language(c::DW_LANG_C11));
+            if *with_lines {
+                e.set(c::DW_AT_stmt_list, write::AttributeValue::LineProgramRef);
+            }
+            if r.chance(5, 6) {
+                e.set(c::DW_AT_low_pc, write::AttributeValue::Address(Address::Constant(low_pc)));
+            }
+        }
+        let files: Vec<write::FileId> = {
+            let unit = dwarf.units.get(*uid);
+            if *with_lines { unit.line_program.files().map(|f| f.0).collect() } else { Vec::new() }
+        };
+        let names = [c::DW_AT_location, c::DW_AT_type, c::DW_AT_byte_size, c::DW_AT_decl_file, c::DW_AT_decl_line, c::DW_AT_external,
+                     c::DW_AT_const_value, c::DW_AT_ranges, c::DW_AT_frame_base, c::DW_AT_linkage_name, c::DW_AT_abstract_origin,
+                     c::DW_AT_data_member_location, c::DW_AT_encoding, c::DW_AT_signature, c::DW_AT_call_file, c::DW_AT_upper_bound,
+                     c::DW_AT_description, c::DW_AT_high_pc, c::DW_AT_entry_pc, c::DW_AT_specification, c::DW_AT_artificial, c::DW_AT_accessibility];
+        for &eid in locals.iter() {
+            let nattr = r.below(6);
+            {
+                let nm = format!("e{}", r.below(50));
+                let v = if r.chance(1, 2) { write::AttributeValue::StringRef(dwarf.strings.add(nm.into_bytes())) } else { write::AttributeValue::String(nm.into_bytes()) };
+                dwarf.units.get_mut(*uid).get_mut(eid).set(c::DW_AT_name, v);
+            }
+            for _ in 0..nattr {
+                let name = *r.pick(&names);
+                if files.is_empty() && (name == c::DW_AT_decl_file || name == c::DW_AT_call_file) {
+                    continue;
+                }
+                let v = match name {
+                    c::DW_AT_location | c::DW_AT_frame_base | c::DW_AT_data_member_location => {
+                        if r.chance(1, 3) && name == c::DW_AT_location {
+                            let mut list = Vec::new();
+                            let mut have_base = low_pc != 0;
+                            for _ in 0..r.range(1, 4) {
+                                let data = gen_expr(&mut r, enc, &bases, &locals, &globals, 0);
+                                let b = r.below(0x10000);
+                                let len = r.range(1, 0x100);
+                                match r.below(5) {
+                                    0 => {
+                                        list.push(write::Location::BaseAddress { address: Address::Constant(0x2000 + r.below(0x1000)) });
+                                        have_base = true;
+                                    }
+                                    1 if have_base => list.push(write::Location::OffsetPair { begin: b, end: b + len, data }),
+                                    2 if !have_base || enc.version >= 5 => list.push(write::Location::StartEnd { begin: Address::Constant(b), end: Address::Constant(b + len), data }),
+                                    3 if !have_base || enc.version >= 5 => list.push(write::Location::StartLength { begin: Address::Constant(b), length: len, data }),
+                                    4 if enc.version >= 5 => list.push(write::Location::DefaultLocation { data }),
+                                    _ => {}
+                                }
+                            }
+                            let id = dwarf.units.get_mut(*uid).locations.add(write::LocationList(list));
+                            write::AttributeValue::LocationListRef(id)
+                        } else {
+                            write::AttributeValue::Exprloc(gen_expr(&mut r, enc, &bases, &locals, &globals, 0))
+                        }
+                    }
+                    c::DW_AT_type | c::DW_AT_abstract_origin | c::DW_AT_specification => {
+                        if r.chance(2, 3) {
+                            write::AttributeValue::UnitRef(*r.pick(&locals))
+                        } else {
+                            let g = *r.pick(&globals);
+                            write::AttributeValue::DebugInfoRef(write::DebugInfoRef::Entry(g.0, g.1))
+                        }
+                    }
+                    c::DW_AT_byte_size | c::DW_AT_upper_bound => match r.below(6) {
+                        0 => write::AttributeValue::Data1(r.next() as u8),
+                        1 => write::AttributeValue::Data2(r.next() as u16),
+                        2 => write::AttributeValue::Data4(r.next() as u32),
+                        3 => write::AttributeValue::Data8(r.boundary64()),
+                        4 => write::AttributeValue::Sdata(r.boundary64() as i64),
+                        _ => write::AttributeValue::Udata(r.boundary64()),
+                    },
+                    c::DW_AT_decl_file | c::DW_AT_call_file => {
+                        if files.is_empty() { write::AttributeValue::Udata(r.below(3)) } else if enc.version <= 4 && r.chance(1, 8) { write::AttributeValue::FileIndex(None) } else { write::AttributeValue::FileIndex(Some(*r.pick(&files))) }
+                    }
+                    c::DW_AT_decl_line => write::AttributeValue::Udata(r.below(100000)),
+                    c::DW_AT_external | c::DW_AT_artificial => if r.chance(1, 2) { write::AttributeValue::FlagPresent } else { write::AttributeValue::Flag(r.chance(1, 2)) },
+                    c::DW_AT_const_value => match r.below(4) {
+                        0 => write::AttributeValue::Block((0..r.below(20)).map(|_| r.below(256) as u8).collect()),
+                        1 => write::AttributeValue::Sdata(r.boundary64() as i64),
+                        2 => write::AttributeValue::Data16(((r.next() as u128) << 64) | r.next() as u128),
+                        _ => write::AttributeValue::String(format!("s{}", r.below(9)).into_bytes()),
+                    },
+                    c::DW_AT_ranges => {
+                        let mut list = Vec::new();
+                        let mut have_base = low_pc != 0;
+                        for _ in 0..r.range(1, 5) {
+                            let b = (r.below(0x10000)) & amask;
+                            let len = r.range(1, 0x100);
+                            match r.below(4) {
+                                0 => {
+                                    list.push(write::Range::BaseAddress { address: Address::Constant(0x3000 + r.below(0x1000)) });
+                                    have_base = true;
+                                }
+                                1 if have_base => list.push(write::Range::OffsetPair { begin: b, end: b + len }),
+                                2 if !have_base || enc.version >= 5 => list.push(write::Range::StartEnd { begin: Address::Constant(b), end: Address::Constant(b + len) }),
+                                3 if !have_base || enc.version >= 5 => list.push(write::Range::StartLength { begin: Address::Constant(b), length: len }),
+                                _ => {}
+                            }
+                        }
+                        let id = dwarf.units.get_mut(*uid).ranges.add(write::RangeList(list));
+                        write::AttributeValue::RangeListRef(id)
+                    }
+                    c::DW_AT_linkage_name | c::DW_AT_description => match r.below(3) {
+                        0 => write::AttributeValue::StringRef(dwarf.strings.add(format!("_Z{}", r.below(30)).into_bytes())),
+                        1 if enc.version >= 5 => write::AttributeValue::LineStringRef(dwarf.line_strings.add(format!("ls{}", r.below(9)).into_bytes())),
+                        _ => write::AttributeValue::String(format!("str{}", r.below(30)).into_bytes()),
+                    },
+                    c::DW_AT_encoding => write::AttributeValue::Encoding(*r.pick(&[c::DW_ATE_signed, c::DW_ATE_unsigned, c::DW_ATE_float])),
+                    c::DW_AT_accessibility => write::AttributeValue::Accessibility(*r.pick(&[c::DW_ACCESS_public, c::DW_ACCESS_private])),
+                    c::DW_AT_signature => write::AttributeValue::DebugTypesRef(gimli::DebugTypeSignature(r.next())),
+                    c::DW_AT_high_pc => if r.chance(1, 2) { write::AttributeValue::Udata(r.below(0x1000)) } else { write::AttributeValue::Address(Address::Constant(r.boundary64() & amask)) },
+                    c::DW_AT_entry_pc => write::AttributeValue::Address(Address::Constant(r.boundary64() & amask)),
+                    _ => write::AttributeValue::Udata(r.below(10)),
+                };
+                dwarf.units.get_mut(*uid).get_mut(eid).set(name, v);
+            }
+        }
+    }
+    let mut sections = write::Sections::new(EndianVec::new(endian));
+    dwarf.write(&mut sections).map_err(|e| format!("{:?}", e))?;
+    Ok(sections_of(&sections))
+}
+
+fn gen_frame(seed: u64, endian: RunTimeEndian, eh: bool) -> Result<Vec<u8>, String> {
+    let mut r = Rng::new(seed);
+    let mut t = write::FrameTable::default();
+    let mut cies = Vec::new();
+    for _ in 0..r.range(1, 3) {
+        let enc = Encoding { address_size: 8, format: if !eh && r.chance(1, 4) { Format::Dwarf64 } else { Format::Dwarf32 }, version: if eh { 1 } else { *r.pick(&[1u16, 3, 4]) } };
+        let caf = *r.pick(&[1u8, 1, 2, 4]);
+        let daf = *r.pick(&[-8i8, -4, -1, 1, 8]);
+        let mut cie = write::CommonInformationEntry::new(enc, caf, daf, Register(*r.pick(&[16u16, 30])));
+        if eh {
+            if r.chance(1, 3) {
+                cie.personality = Some((*r.pick(&[c::DW_EH_PE_absptr, c::DW_EH_PE_udata4, gimli::DwEhPe(0x1b)]), Address::Constant(0x4000 + r.below(0x100))));
+            }
+            if r.chance(1, 3) {
+                cie.lsda_encoding = Some(*r.pick(&[c::DW_EH_PE_absptr, c::DW_EH_PE_udata4, gimli::DwEhPe(0x1b)]));
+            }
+            cie.fde_address_encoding = *r.pick(&[c::DW_EH_PE_absptr, c::DW_EH_PE_udata4, gimli::DwEhPe(0x1b), c::DW_EH_PE_sdata4]);
+            cie.signal_trampoline = r.chance(1, 5);
+        }
+        cie.add_instruction(write::CallFrameInstruction::Cfa(Register(7), 8));
+        if r.chance(3, 4) {
+            cie.add_instruction(write::CallFrameInstruction::Offset(Register(16), daf as i32));
+        }
+        let has_lsda = cie.lsda_encoding.is_some();
+        cies.push((t.add_cie(cie), caf, daf, has_lsda, enc));
+    }
+    let mut addr = 0x1000u64;
+    for _ in 0..r.range(1, 6) {
+        let (cid, caf, daf, has_lsda, enc) = *r.pick(&cies);
+        let len = r.range(0x20, 0x400) as u32;
+        let mut fde = write::FrameDescriptionEntry::new(Address::Constant(addr), len);
+        if has_lsda {
+            fde.lsda = Some(Address::Constant(0x8000 + r.below(0x100)));
+        }
+        let mut off = 0u32;
+        let mut depth = 0;
+        let mut cfa_is_expr = false;
+        for _ in 0..r.range(0, 14) {
+            off += caf as u32 * match r.below(5) { 0 => 0, 1 => 1, 2 => r.below(70) as u32, 3 => r.below(300) as u32, _ => 4 };
+            if off >= len {
+                break;
+            }
+            let reg = Register(*r.pick(&[3u16, 6, 12, 16, 70]));
+            let d = daf as i32 * r.range(0, 20) as i32;
+            let ins = match r.below(17) {
+                0 => { cfa_is_expr = false; write::CallFrameInstruction::Cfa(Register(*r.pick(&[6u16, 7])), *r.pick(&[8i32, 16, 4096, -8, -16]) / if daf < 0 { 1 } else { 1 }) }
+                1 if !cfa_is_expr => write::CallFrameInstruction::CfaRegister(Register(6)),
+                2 if !cfa_is_expr => write::CallFrameInstruction::CfaOffset(*r.pick(&[16i32, 24, 1 << 20, 0])),
+                3 => {
+                    cfa_is_expr = true;
+                    write::CallFrameInstruction::CfaExpression(gen_expr(&mut r, enc, &[], &[], &[], 1))
+                }
+                4 => write::CallFrameInstruction::Restore(reg),
+                5 => write::CallFrameInstruction::Undefined(reg),
+                6 => write::CallFrameInstruction::SameValue(reg),
+                7 | 8 => write::CallFrameInstruction::Offset(reg, d),
+                9 => write::CallFrameInstruction::ValOffset(reg, -d),
+                10 => write::CallFrameInstruction::Register(reg, Register(9)),
+                11 => write::CallFrameInstruction::Expression(reg, gen_expr(&mut r, enc, &[], &[], &[], 1)),
+                12 => write::CallFrameInstruction::ValExpression(reg, gen_expr(&mut r, enc, &[], &[], &[], 1)),
+                13 => { depth += 1; write::CallFrameInstruction::RememberState }
+                14 if depth > 0 => { depth -= 1; cfa_is_expr = false; write::CallFrameInstruction::RestoreState }
+                15 => write::CallFrameInstruction::ArgsSize(r.below(1 << 20) as u32),
+                _ => write::CallFrameInstruction::Offset(Register(6), daf as i32 * 2),
+            };
+            if matches!(ins, write::CallFrameInstruction::RestoreState) {
+                // whether the restored CFA is an expression is unknown; stop changing it piecewise
+                cfa_is_expr = true;
+            }
+            fde.add_instruction(off, ins);
+        }
+        t.add_fde(cid, fde);
+        addr += len as u64 + r.below(0x100);
+    }
+    write_frame(&t, if eh { "eh_frame" } else { "debug_frame" }, endian).map_err(|e| format!("{:?}", e))
+}
+
+// ===========================================================================
 // inputs
 // ===========================================================================
 fn read_file(p: &str) -> Option<Vec<u8>> {
@@ -1120,6 +1529,14 @@ fn replay(case: &J) -> J {
         "frame" => {
             if base == "cfi" {
                 run_frame(base, "debug_frame", assemble_cfi(case), RunTimeEndian::Little, 8, &sample, &mut evs);
+            } else if base == "gen" {
+                let kind = case["section"].as_str().unwrap_or("eh_frame");
+                let endian = if seed % 5 == 0 { RunTimeEndian::Big } else { RunTimeEndian::Little };
+                let eh = kind == "eh_frame";
+                match std::panic::catch_unwind(move || gen_frame(seed, endian, eh)).unwrap_or_else(|p| Err(format!("generator panic: {}", panic_msg(p)))) {
+                    Ok(b) => run_frame(base, kind, b, endian, 8, &sample, &mut evs),
+                    Err(e) => evs.push(json!({"ev":"GenFailed","what":"frame","base":base,"err":e})),
+                }
             } else if base == "raw" {
                 let kind = case["section"].as_str().unwrap_or("debug_frame");
                 let le = case["le"].as_bool().unwrap_or(true);
@@ -1139,7 +1556,19 @@ fn replay(case: &J) -> J {
             let le = case["le"].as_bool().unwrap_or(true);
             let endian = if le { RunTimeEndian::Little } else { RunTimeEndian::Big };
             let mut secs = Secs::new();
-            if base == "raw" {
+            let mut endian = endian;
+            if base == "gen" {
+                if seed % 5 == 0 {
+                    endian = RunTimeEndian::Big;
+                }
+                match std::panic::catch_unwind(move || gen_dwarf(seed, endian)).unwrap_or_else(|p| Err(format!("generator panic: {}", panic_msg(p)))) {
+                    Ok(s) => secs = s,
+                    Err(e) => {
+                        evs.push(json!({"ev":"GenFailed","what":"dwarf","base":base,"err":e}));
+                        return json!({"events": evs});
+                    }
+                }
+            } else if base == "raw" {
                 if let Some(m) = case["sections"].as_object() {
                     for (k, v) in m {
                         secs.insert(k.clone(), leak(bytes_of(v)));
